@@ -91,3 +91,30 @@ package rtpac3
 //@     invariant forall j :: 0 <= j && j < len(rets) ==> rets[j] != nil && fresh(rets[j]) && len(rets[j].Payload) <= e.PayloadMaxSize
 //@     invariant forall j :: 0 <= j && j < len(rets) ==> rets[j].SequenceNumber == old(e.sequenceNumber) + uint16(j)
 //@     invariant forall j :: 0 <= j && j < len(rets) ==> rets[j].PayloadType == e.PayloadType && rets[j].SSRC == *e.SSRC
+
+// --- decoder (C08) -------------------------------------------------------------------------
+// The partial frame is one packet's worth of bytes plus, at most, what the frame header
+// announced as still missing (an AC-3 frame has at most 3840 bytes).
+//@ typeinv Decoder d
+//@   inv[C08] 0 <= d.fragmentsSize && d.fragmentsSize <= 65535 + 3840
+//@   inv[C08] d.fragmentsSize > 0 && d.fragmentsExpected >= 0 ==> d.fragmentsSize + d.fragmentsExpected <= 65535 + 3840
+
+//@ func joinFragments
+//@   opt safety-tag=C08
+//@   requires size >= 0 && size <= 4194304
+//@   ensures[C08] len(ret) == size
+//@   modifies fresh
+//@   loop 1
+//@     invariant _i >= 0 && 0 <= n && n <= size && len(ret) == size && fresh(ret)
+
+//@ func (d *Decoder) resetFragments
+//@   opt typeinv=off
+//@   ensures[C08] d.fragmentsSize == 0 && len(d.fragments) == 0
+//@   modifies d.fragments, d.fragmentsSize
+
+//@ func (d *Decoder) Decode
+//@   opt safety-tag=C08
+//@   requires pkt != nil && len(pkt.Payload) <= 65535
+//@   modifies *
+//@   loop 1
+//@     invariant d.fragmentsSize == 0 && len(buf) <= 65535
